@@ -62,6 +62,11 @@ func (p c10Pos) inTunnel() bool {
 
 var c10StoreMethods = append(append([]string(nil), c03Methods...), "SetRVBlob", "RVBlob", "SetTO0SignNonce", "TO0SignNonce", "SetTO1ProofNonce", "TO1ProofNonce")
 
+var c10MfgKeys = []struct {
+	T    protocol.KeyType
+	Bits int
+}{{protocol.Secp256r1KeyType, 0}, {protocol.Secp384r1KeyType, 0}, {protocol.Rsa2048RestrKeyType, 2048}, {protocol.RsaPkcsKeyType, 3072}, {protocol.RsaPssKeyType, 3072}, {protocol.RsaPkcsKeyType, 2048}}
+
 var c10KexNames = []string{"ECDH256", "ASYMKEX2048", "", "ECDH", "ecdh256", "DHKEXid16", "ASYMKEX4096", "ECDH521"}
 
 // cipher suite identifiers: the COSE registry range around the defined AEAD
@@ -168,6 +173,13 @@ func (p *c10) Prepare(t *testing.T, tier string, seed uint64) {
 				if pos.Phase == "req" && (pos.Msg == 10 || pos.Msg == 20 || pos.Msg == 30 || pos.Msg == 60) && fi == 0 {
 					for g := 0; g < 3*len(c10StoreMethods); g++ {
 						plans = append(plans, C10Plan{Seed: base.Seed, Key: f.Key, Enc: f.Enc, Proto: proto, Phase: pos.Phase, Msg: pos.Msg, Occur: pos.Occur, Kind: "store", Ord: g})
+					}
+				}
+				if pos.Phase == "req" && pos.Msg == 10 {
+					// a manufacturer answering with a key of another family, to devices
+					// with and without an HMAC-SHA384 engine
+					for g := 0; g < 2*len(c10MfgKeys); g++ {
+						plans = append(plans, C10Plan{Seed: base.Seed, Key: f.Key, Enc: f.Enc, Proto: proto, Phase: pos.Phase, Msg: pos.Msg, Occur: pos.Occur, Kind: "mfgkey", Ord: g})
 					}
 				}
 				if pos.Phase == "req" && pos.Msg == 60 && fi == 0 {
@@ -674,6 +686,16 @@ func c10Run(env *Env, pl *C10Plan, collect map[c10Pos][]byte, baseAlloc uint64) 
 	switch pl.Proto {
 	case "DI":
 		d1 = s.NewDevice("dev1", "dev1", cfg)
+		if pl.Kind == "mfgkey" {
+			mk := c10MfgKeys[pl.Ord%len(c10MfgKeys)]
+			d1.NoHmac384 = pl.Ord >= len(c10MfgKeys)
+			mn := s.Nodes["mfg"]
+			mn.MfgKeyOverride = func(protocol.KeyType) (protocol.KeyType, int) { return mk.T, mk.Bits }
+			mn.Rebuild()
+			tampered = true
+			runtime.ReadMemStats(&ms0)
+			desc = fmt.Sprintf("manufacturer answers with a key of type %d/%d bits, device without HMAC-SHA384 engine: %v", mk.T, mk.Bits, d1.NoHmac384)
+		}
 		perr = s.DI(ctx, d1, "mfg")
 	case "TO0", "TO1", "TO2":
 		// preceding honest steps (hooks ignore other protocols' messages)
